@@ -37,7 +37,11 @@ SPEC = dict(
              'all tables of that shape. (5) DICTIONARIES ARE OUTPUT-BOUNDED, NOT INPUT-BOUNDED: a parse that returns makes exactly '
              '4*(entries+stops)-2 calls (entries = keys in the result, stops = edges ending in a pruned/library cell) and <= (1+B) times '
              'as many steps with the unary-label loop (B = max bits per cell) (c19_dict_output, c19_dict_total); always <= 2 calls per node '
-             'of the tree UNFOLDED from the root. The bag can be exponentially smaller than that tree: ~250 bytes whose 30 forks reference '
+             'of the tree UNFOLDED from the root; and, since deserialize_hml refuses a label longer than the remaining key ({n <= m} of '
+             'hashmap.tlb; repaired defect: the remaining key went negative, never met a leaf, and shared forks below were walked 2^depth '
+             'times for an empty result), the remaining key length is never negative, the recursion is at most key_length+1 deep on ANY '
+             'cell graph (even a cyclic node list) and makes <= 2^(key_length+2)-2 calls (c19_dict_depth_le_keylen, c19_dict_label_fits). '
+             'The bag can be exponentially smaller than the unfolded tree: ~250 bytes whose 30 forks reference '
              'the same child twice are a legitimate 2^30-entry dictionary, and over a pruned/exotic bottom cell the same 2^30 steps return an '
              'EMPTY result (stops = 2^30). For load_dict the sentence "a few-hundred-byte input cannot run long" therefore does NOT hold; the '
              'property is read as work <= c*(output entries + pruned edges) for dictionaries (not repaired: an eager dict-returning API '
@@ -45,9 +49,10 @@ SPEC = dict(
              'counted by sys.monitoring inside pytoniq_core during one call, constants calibrated once with ~4x slack, design/C19.md) on '
              'adversarial families (2-refs-to-same-child chains to length 1000, depth-1023 chains, level-3 cells, diamonds, huge count '
              'fields over short bodies, TL vectors declaring up to 2^32-1 elements, bytes re-parse towers, dictionaries with bogus labels '
-             'and maximal sharing) plus a 2 s wall-clock cap per call; also compared: cell order, len(to_boc), number of sha256 objects and '
+             'and maximal sharing, labels longer than the remaining key - every constructor, at the root and below forks, over 2^14 shared '
+             'paths: must be refused at once) plus a 2 s wall-clock cap per call; also compared: cell order, len(to_boc), number of sha256 objects and '
              'bytes hashed while constructing a DAG (= one per hashed level per DISTINCT cell), dictionary entries returned = entries '
-             'counted by the model, side conditions of c19_tl_total on every table sent to the driver. C-level costs (bytes slicing '
+             'counted by the model, a model parse that raises must raise in the library, side conditions of c19_tl_total on every table sent to the driver. C-level costs (bytes slicing '
              'cells_data[i:], hashing, bitarray) are visible only through the line-count proxy and the wall-clock cap.',
         level_note='Trusted: Lean kernel (propext, Classical.choice, Quot.sound); Model/Cost.lean as a hand transcription of the loops of '
                    'cell.py (order, to_boc, __init__/calculate_hashes), deserialize.py, hashmap/parse.py, tl/generator.py (upper-bound '
@@ -62,7 +67,7 @@ SPEC = dict(
     rule='one case = one public call on one adversarial input with its model step count; families: double/triple-ref chains 10..1000, '
          'depth-1023 chains, diamonds, wide sharing, random DAGs (order, to_boc x flag sets, from_boc, construction); BoC byte strings '
          'with huge cells_num/roots_num/index/size fields, truncations and byte mutations of valid bags; dictionaries (valid, bogus '
-         'label lengths, maximal sharing, exotic/short leaves); TL byte strings (valid-ish, truncated, vectors declaring up to 2^32-1, '
+         'label lengths, labels longer than the remaining key, maximal sharing, exotic/short leaves); TL byte strings (valid-ish, truncated, vectors declaring up to 2^32-1, '
          'bytes re-parse towers); distinct = distinct (op, input); non-trivial = model steps > 3',
     trusted_base=['Model/Cost.lean mirrors the loop structure of Cell.order/to_boc, Boc.deserialize(_boc_header/_cell), hashmap.parse, '
                   'TlSchemas.deserialize by hand (cost only, upper-bound convention)',
@@ -1038,7 +1043,7 @@ def run(ctx):
         for bottom in ('leaf', 'exotic', 'short'):
             check_dict(ctx, fam_dict_shared(depth, depth + 3, bottom), depth + 3, f'shared{depth}-{bottom}')
         check_dict(ctx, fam_dict_shared(depth, depth, 'leaf'), depth, f'shared{depth}-exact')
-        check_dict(ctx, fam_dict_shared(depth, 2, 'leaf'), 2, f'shared{depth}-negative-m')
+        check_dict(ctx, fam_dict_shared(depth, 2, 'leaf'), 2, f'shared{depth}-key-ends-at-fork')
     for t in range(ctx.n(40, 400)):
         kl = rng.choice([1, 8, 32, 256])
         check_dict(ctx, fam_dict_bogus(rng, rng.choice([1, 5, 30, 200, 900]), kl), kl, f'bogus{t}')
